@@ -424,6 +424,29 @@ static void fillProgramMemoryFromConditions(ProgramMemory& pm, const Token* tok,
     fillProgramMemoryFromConditions(pm, tok->scope(), tok, settings);
 }
 
+// the value after the conversion to the integer type vt (a cast, an initialisation, an assignment)
+static ValueFlow::Value convertToType(const ValueType* vt, ValueFlow::Value v, const Settings& settings)
+{
+    if (!v.isIntValue() || v.isImpossible() || !vt || !vt->isIntegral() || vt->pointer != 0)
+        return v;
+    if (vt->type == ValueType::Type::BOOL) {
+        v.intvalue = (v.intvalue != 0) ? 1 : 0;
+        return v;
+    }
+    ValueType::Sign sign = vt->sign;
+    if (vt->type == ValueType::Type::CHAR && sign == ValueType::Sign::UNKNOWN_SIGN) {
+        // plain char has the signedness of the platform
+        if (settings.platform.defaultSign == 's' || settings.platform.defaultSign == 'S')
+            sign = ValueType::Sign::SIGNED;
+        else if (settings.platform.defaultSign == 'u' || settings.platform.defaultSign == 'U')
+            sign = ValueType::Sign::UNSIGNED;
+    }
+    const size_t size = vt->getSizeOf(settings, ValueType::Accuracy::ExactOrZero, ValueType::SizeOf::Pointer);
+    if (size > 0 && size < sizeof(MathLib::bigint))
+        v.intvalue = ValueFlow::truncateIntValue(v.intvalue, size, sign);
+    return v;
+}
+
 static void fillProgramMemoryFromAssignments(ProgramMemory& pm, const Token* tok, const Settings& settings, const ProgramMemory& state, const ProgramMemory::Map& vars)
 {
     int indentlevel = 0;
@@ -444,7 +467,8 @@ static void fillProgramMemoryFromAssignments(ProgramMemory& pm, const Token* tok
                 if (!pm.hasValue(vartok->exprId())) {
                     const Token* valuetok = tok2->astOperand2();
                     ProgramMemory local = state;
-                    pm.setValue(vartok, execute(valuetok, local, settings));
+                    // the variable holds the value converted to its type
+                    pm.setValue(vartok, convertToType(vartok->valueType(), execute(valuetok, local, settings), settings));
                 }
             }
         } else if (Token::simpleMatch(tok2, ")") && tok2->link() &&
@@ -1325,30 +1349,6 @@ namespace {
             assert(pm != nullptr);
         }
 
-        // the value of a cast to an integer type is the converted value
-        ValueFlow::Value castResult(const Token* cast, ValueFlow::Value v) const
-        {
-            const ValueType* vt = cast->valueType();
-            if (!v.isIntValue() || v.isImpossible() || !vt || !vt->isIntegral() || vt->pointer != 0)
-                return v;
-            if (vt->type == ValueType::Type::BOOL) {
-                v.intvalue = (v.intvalue != 0) ? 1 : 0;
-                return v;
-            }
-            ValueType::Sign sign = vt->sign;
-            if (vt->type == ValueType::Type::CHAR && sign == ValueType::Sign::UNKNOWN_SIGN) {
-                // plain char has the signedness of the platform
-                if (settings.platform.defaultSign == 's' || settings.platform.defaultSign == 'S')
-                    sign = ValueType::Sign::SIGNED;
-                else if (settings.platform.defaultSign == 'u' || settings.platform.defaultSign == 'U')
-                    sign = ValueType::Sign::UNSIGNED;
-            }
-            const size_t size = vt->getSizeOf(settings, ValueType::Accuracy::ExactOrZero, ValueType::SizeOf::Pointer);
-            if (size > 0 && size < sizeof(MathLib::bigint))
-                v.intvalue = ValueFlow::truncateIntValue(v.intvalue, size, sign);
-            return v;
-        }
-
         static ValueFlow::Value unknown() {
             return ValueFlow::Value::unknown();
         }
@@ -1642,10 +1642,10 @@ namespace {
             } else if (expr->str() == "(" && expr->isCast()) {
                 if (expr->astOperand2()) {
                     if (expr->astOperand1()->str() != "dynamic_cast")
-                        return castResult(expr, execute(expr->astOperand2()));
+                        return convertToType(expr->valueType(), execute(expr->astOperand2()), settings);
                     return unknown();
                 }
-                return castResult(expr, execute(expr->astOperand1()));
+                return convertToType(expr->valueType(), execute(expr->astOperand1()), settings);
             }
             if (expr->exprId() > 0 && pm->hasValue(expr->exprId())) {
                 ValueFlow::Value result = utils::as_const(*pm).at(expr->exprId());
